@@ -50,9 +50,9 @@ def cases_(draw):
     elif gen.rare(draw, 180):
         # focused class 'numeric typing': integer and number columns side by side, steps that derive a type from them
         pkg = draw(gp.input_package(2, 3, types=['integer', 'number', 'number']))
-        prog = draw(gp.programs(1, 4, kinds=['add_computed', 'join', 'add_computed', 'unpivot', 'concatenate', 'join'],
+        prog = draw(gp.programs(1, 4, kinds=['add_computed', 'join', 'add_computed', 'unpivot', 'add_computed', 'concatenate', 'join'],
                                 pkg=pkg, favour_mutators=False))
-    elif gen.rare(draw, 120):
+    elif gen.rare(draw, 170):
         # focused class 'retyping': several text columns per resource, retyped (several at once, non-numbers cleared)
         pkg = draw(gp.input_package(1, 2, types=['string', 'string', 'integer'], sizes=(2, 3, 5)))
         prog = draw(gp.programs(1, 3, kinds=['set_type', 'set_type', 'validate', 'find_replace'], pkg=pkg,
